@@ -44,6 +44,7 @@ func init() {
 	engines["merge"] = &Engine{Gen: genMerge, Exec: execMerge}
 	engines["skl"] = &Engine{Gen: genSkl, Exec: execSkl}
 	engines["sklstress"] = &Engine{Gen: genSklStress, Exec: execSklStress}
+	engines["sklsched"] = &Engine{Gen: genSklSched, Exec: execSklSched}
 }
 
 type itEntry struct {
@@ -1598,4 +1599,365 @@ func itStressOnce(seed int64, nw, nk, np, nr int, st *Stats) []string {
 	st.Inc("stress:writers:" + strconv.Itoa(nw))
 	st.Inc("stress:keys:" + sizeBucket(nput))
 	return msgs
+}
+
+// ---------------------------------------------------------------- sklsched (C22, concurrent T-corr)
+//
+// Concurrent Puts of the real skiplist under an EXPLICIT schedule, compared step by step with
+// the SkipConc Lean model. Put parks at its schedule points (skl.VerifSetSklHook; points: start,
+// before setValue, before the height CAS, before every tower CAS, after a failed tower CAS);
+// exactly one goroutine runs at a time.
+//   reset
+//   pre   <key> <vs> <h|?>        sequential Put before the race                       -> ok
+//   spawn <t> <key> <vs> <h|?>    goroutine t = 0,1,.. starts Put and parks at its entry -> start
+//                                 (`?`: Exec writes the height randomHeight() drew, 1 if none)
+//   sched <t,t,...>               goroutine t runs to its next point, for each t        -> tokens
+//                                 start|setval|cash|cas<i>|casfail<i>|done
+//   finish                        goroutines 0,1,.. in turn, each to completion         -> t:token,...
+//   get <key> | tower | dump | height   as in engine skl, on the intermediate state
+
+type itSchedG struct {
+	key, val []byte
+	resume   chan struct{}
+	arrived  chan int
+	done     bool
+	at       int // id of the point it is parked at
+	h        int
+	line     int
+}
+
+func itSchedToken(id int) string {
+	switch {
+	case id == -1:
+		return "done"
+	case id == skl.VerifSklStart:
+		return "start"
+	case id == skl.VerifSklSetValue || id == skl.VerifSklRetrySet:
+		return "setval"
+	case id == skl.VerifSklHeightCAS:
+		return "cash"
+	case id >= skl.VerifSklCASFail && id < skl.VerifSklCASFail+100:
+		return fmt.Sprintf("casfail%d", id-skl.VerifSklCASFail)
+	case id >= skl.VerifSklCAS && id < skl.VerifSklCAS+100:
+		return fmt.Sprintf("cas%d", id-skl.VerifSklCAS)
+	}
+	return fmt.Sprintf("point%d", id)
+}
+
+func genSklSched(rng *rand.Rand, n int, st *Stats) []string {
+	var ops []string
+	for c := 0; c < n; c++ {
+		ops = append(ops, "reset")
+		// small key set: few user keys, adjacent versions
+		var pool [][]byte
+		nu := 1 + rng.Intn(3)
+		for u := 0; u < nu; u++ {
+			uk := genUserKey(rng, 1, 2)
+			for v := 0; v < 1+rng.Intn(3); v++ {
+				pool = append(pool, y.KeyWithTs(uk, uint64(rng.Intn(4))))
+			}
+		}
+		for j := rng.Intn(4); j > 0; j-- {
+			ops = append(ops, fmt.Sprintf("pre %s %s ?", hx(pool[rng.Intn(len(pool))]), hx(itGenVS(rng))))
+		}
+		ng := 2 + rng.Intn(2)
+		st.Inc(fmt.Sprintf("sched:goroutines:%d", ng))
+		hotKey := pool[rng.Intn(len(pool))]
+		for t := 0; t < ng; t++ {
+			k := pool[rng.Intn(len(pool))]
+			if rng.Intn(2) == 0 {
+				k = hotKey // equal keys race
+			}
+			ops = append(ops, fmt.Sprintf("spawn %d %s %s ?", t, hx(k), hx(itGenVS(rng))))
+		}
+		chunks := 1 + rng.Intn(6)
+		for j := 0; j < chunks; j++ {
+			var ts []string
+			for m := 1 + rng.Intn(6); m > 0; m-- {
+				ts = append(ts, strconv.Itoa(rng.Intn(ng)))
+			}
+			ops = append(ops, "sched "+strings.Join(ts, ","))
+			switch rng.Intn(4) {
+			case 0:
+				ops = append(ops, "get "+hx(pool[rng.Intn(len(pool))]))
+			case 1:
+				ops = append(ops, "tower")
+			case 2:
+				ops = append(ops, "dump")
+			}
+		}
+		ops = append(ops, "finish", "height", "tower", "dump")
+		for _, k := range pool {
+			if rng.Intn(2) == 0 {
+				ops = append(ops, "get "+hx(k))
+			}
+		}
+	}
+	return ops
+}
+
+func execSklSched(ops []string, st *Stats) ([]string, []string) {
+	outs := make([]string, len(ops))
+	var oracle []string
+	var l *skl.Skiplist
+	var gs []*itSchedG
+	var cur *itSchedG
+	mainH := 0
+	ref := &itRefMap{}           // sorted map in linearisation order of the publishing accesses
+	putKeys := map[string]bool{} // every key some Put was issued for
+	fail := func(i int, msg string) {
+		if msg != "" {
+			oracle = append(oracle, fmt.Sprintf("line %d: %s :: %s", i+1, ops[i], msg))
+		}
+	}
+	skl.VerifSetSklHook(func(id int) {
+		g := cur
+		if id >= skl.VerifSklHeight {
+			if g != nil {
+				g.h = id - skl.VerifSklHeight
+			} else {
+				mainH = id - skl.VerifSklHeight
+			}
+			return
+		}
+		if g == nil {
+			return // the harness goroutine itself (pre): never parks
+		}
+		g.arrived <- id
+		<-g.resume
+	})
+	defer skl.VerifSetSklHook(nil)
+	// advance: goroutine g runs to its next point; returns the token
+	advance := func(g *itSchedG) string {
+		if g.done {
+			return "done"
+		}
+		from := g.at
+		cur = g
+		g.resume <- struct{}{}
+		id := <-g.arrived
+		cur = nil
+		g.at = id
+		if id == -1 {
+			g.done = true
+		}
+		tok := itSchedToken(id)
+		// the access the goroutine was parked in front of has now been made
+		switch {
+		case from == skl.VerifSklSetValue || from == skl.VerifSklRetrySet:
+			ref.put(g.key, g.val) // setValue: this Put's value is now the node's value
+			st.Inc("sched:setvalue")
+		case from == skl.VerifSklCAS: // level 0
+			if id == skl.VerifSklCASFail {
+				st.Inc("sched:cas-retry-level0")
+			} else {
+				ref.put(g.key, g.val) // linked on level 0: visible with its value
+				st.Inc("sched:link-level0")
+			}
+		case from > skl.VerifSklCAS && from < skl.VerifSklCAS+100:
+			if id >= skl.VerifSklCASFail && id < skl.VerifSklCASFail+100 {
+				st.Inc("sched:cas-retry-upper")
+			}
+		case from == skl.VerifSklHeightCAS:
+			st.Inc("sched:height-cas")
+		}
+		if from == skl.VerifSklCASFail && (id == skl.VerifSklRetrySet) {
+			st.Inc("sched:equal-key-after-failed-cas")
+		}
+		return tok
+	}
+	finishAll := func() []string {
+		var toks []string
+		for t, g := range gs {
+			for !g.done {
+				toks = append(toks, fmt.Sprintf("%d:%s", t, advance(g)))
+			}
+		}
+		return toks
+	}
+	closeSession := func() {
+		finishAll()
+		for _, g := range gs {
+			if strings.HasSuffix(ops[g.line], " ?") {
+				h := g.h
+				if h == 0 {
+					h = 1
+				}
+				ops[g.line] = strings.TrimSuffix(ops[g.line], "?") + strconv.Itoa(h)
+			}
+		}
+		gs = nil
+		if l != nil {
+			l.DecrRef()
+			l = nil
+		}
+	}
+	checkState := func(i int, final bool) {
+		levels, ok := l.VerifLevels(len(putKeys) + 8)
+		if !ok {
+			fail(i, "[skl-sched-chain] a level chain does not end")
+		}
+		for li, ch := range levels {
+			if m := itCheckChain(ch); m != "" {
+				fail(i, fmt.Sprintf("[skl-sched-sorted] level %d: %s", li, m))
+			}
+			if li > 0 && !itIsSubseq(ch, levels[li-1]) {
+				fail(i, fmt.Sprintf("[skl-sched-sublist] level %d is not a sub-chain of level %d", li, li-1))
+			}
+		}
+		// level 0 with values = the sorted map built in linearisation order
+		var got, want []string
+		x := l.NewIterator()
+		for x.SeekToFirst(); x.Valid(); x.Next() {
+			got = append(got, hx(x.Key())+":"+hx(itEncVS(x.Value())))
+			if len(got) > len(putKeys)+8 {
+				break
+			}
+		}
+		x.Close()
+		for _, e := range ref.es {
+			want = append(want, hx(e.key)+":"+hx(e.val))
+		}
+		if strings.Join(got, " ") != strings.Join(want, " ") {
+			fail(i, fmt.Sprintf("[skl-sched-winner] level 0 is %v, the publishing accesses in schedule order give %v", got, want))
+		}
+		if final {
+			for k := range putKeys {
+				if ref.indexOf([]byte(k)) < 0 {
+					fail(i, fmt.Sprintf("[skl-sched-lost] key %s was Put and is absent", hx([]byte(k))))
+				}
+			}
+		}
+	}
+	towerStr := func() string {
+		levels, _ := l.VerifLevels(len(putKeys) + 8)
+		var parts []string
+		for _, ch := range levels {
+			var ks []string
+			for _, k := range ch {
+				ks = append(ks, hx(k))
+			}
+			if len(ks) == 0 {
+				parts = append(parts, "-")
+			} else {
+				parts = append(parts, strings.Join(ks, " "))
+			}
+		}
+		return strings.Join(parts, " | ")
+	}
+	for i, line := range ops {
+		w := strings.Fields(line)
+		if len(w) == 0 || (w[0] != "reset" && l == nil) {
+			outs[i] = "bad-op"
+			continue
+		}
+		st.Inc("op:" + w[0])
+		switch w[0] {
+		case "reset":
+			closeSession()
+			l = skl.NewSkiplist(1 << 20)
+			ref = &itRefMap{}
+			putKeys = map[string]bool{}
+			outs[i] = "ok"
+		case "pre":
+			if len(w) != 4 {
+				outs[i] = "bad-op"
+				break
+			}
+			k, v := unhx(w[1]), unhx(w[2])
+			mainH = 0
+			l.Put(k, itDecVS(v))
+			ref.put(k, v)
+			putKeys[string(k)] = true
+			h := mainH
+			if h == 0 {
+				h = 1
+			}
+			ops[i] = fmt.Sprintf("pre %s %s %d", w[1], w[2], h)
+			outs[i] = "ok"
+		case "spawn":
+			t, err := strconv.Atoi(w[1])
+			if len(w) != 5 || err != nil || t != len(gs) {
+				outs[i] = "bad-op"
+				break
+			}
+			g := &itSchedG{key: unhx(w[2]), val: unhx(w[3]), resume: make(chan struct{}), arrived: make(chan int), line: i}
+			if w[4] != "?" {
+				ops[i] = strings.Join(w[:4], " ") + " ?"
+			}
+			gs = append(gs, g)
+			putKeys[string(g.key)] = true
+			cur = g
+			go func(ll *skl.Skiplist) {
+				ll.Put(g.key, itDecVS(g.val))
+				g.arrived <- -1
+			}(l)
+			id := <-g.arrived
+			cur = nil
+			g.at = id
+			outs[i] = itSchedToken(id)
+		case "sched":
+			var toks []string
+			bad := len(w) != 2
+			if !bad {
+				for _, x := range strings.Split(w[1], ",") {
+					t, err := strconv.Atoi(x)
+					if err != nil || t < 0 || t >= len(gs) {
+						bad = true
+						break
+					}
+					toks = append(toks, advance(gs[t]))
+				}
+			}
+			if bad {
+				outs[i] = "bad-op"
+				break
+			}
+			outs[i] = strings.Join(toks, ",")
+			checkState(i, false)
+		case "finish":
+			toks := finishAll()
+			if len(toks) == 0 {
+				outs[i] = "-"
+			} else {
+				outs[i] = strings.Join(toks, ",")
+			}
+			checkState(i, true)
+		case "get":
+			k := unhx(w[1])
+			vs := l.Get(k)
+			out := hx(itEncVS(vs)) + " " + utoa(vs.Version)
+			want := "000000 0"
+			if j := ref.near(k, false, true); j >= 0 && y.SameKey(k, ref.es[j].key) {
+				want = hx(ref.es[j].val) + " " + utoa(y.ParseTs(ref.es[j].key))
+			}
+			if out != want {
+				fail(i, fmt.Sprintf("[skl-sched-get] Get between schedule points returned %s, the publishing accesses so far give %s", out, want))
+			}
+			outs[i] = out
+		case "height":
+			outs[i] = strconv.Itoa(l.VerifHeight())
+		case "tower":
+			outs[i] = towerStr()
+		case "dump":
+			var parts []string
+			x := l.NewIterator()
+			for x.SeekToFirst(); x.Valid(); x.Next() {
+				parts = append(parts, hx(x.Key())+":"+hx(itEncVS(x.Value())))
+				if len(parts) > len(putKeys)+8 {
+					break
+				}
+			}
+			x.Close()
+			if len(parts) == 0 {
+				outs[i] = "-"
+			} else {
+				outs[i] = strings.Join(parts, " ")
+			}
+		default:
+			outs[i] = "bad-op"
+		}
+	}
+	closeSession()
+	return outs, oracle
 }
